@@ -145,7 +145,11 @@ def main():
         res, n = explore()
     except Exception:
         res = dict(reproduced=False, error=traceback.format_exc()[-1500:])
-    print(json.dumps(res, default=str))
+    if a.obligation:
+        print(json.dumps(res, default=str))
+    else:
+        print(json.dumps([dict(name='c18:confinement-sandbox', bounded=True, bound=f'{res.get("cases")} adversarial keys / operations in a sandboxed directory tree',
+                               violation=bool(res.get('reproduced')), witness=[res] if res.get('reproduced') else [], error=res.get('error'))], default=str))
     return 1 if res.get('reproduced') else 0
 
 
